@@ -1,6 +1,7 @@
 package props
 
 import (
+	"context"
 	"errors"
 	"fmt"
 	"io"
@@ -9,6 +10,7 @@ import (
 	"strings"
 	"sync"
 	"syscall"
+	"time"
 
 	"github.com/TeaEntityLab/fpGo/v2/network"
 
@@ -54,6 +56,13 @@ func (w *c18LWorld) RoundTrip(r *http.Request) (*http.Response, error) {
 }
 
 var errC18L = errors.New("stub: interceptor refused")
+
+// an interceptor's own error that happens to be of the timeout kind (net.Error style)
+type c18TimeoutErr struct{}
+
+func (c18TimeoutErr) Error() string   { return errC18L.Error() + " (quota window not open yet)" }
+func (c18TimeoutErr) Timeout() bool   { return true }
+func (c18TimeoutErr) Temporary() bool { return true }
 
 func c18LongHistory(id string, requests int, seed int64) core.Scenario {
 	return core.Scenario{ID: id, Class: "interceptor-chain.long", Run: func(c *core.Ctx) {
@@ -111,8 +120,13 @@ func c18LongHistory(id string, requests int, seed int64) core.Scenario {
 				tLeg = 1 + rng.Intn(len(legs))
 			}
 			failErr := errC18L
-			if rng.Intn(3) == 0 {
+			switch rng.Intn(6) {
+			case 0, 1:
 				failErr = fmt.Errorf("%w (while refreshing a token: %w)", errC18L, io.ErrUnexpectedEOF)
+			case 2:
+				failErr = fmt.Errorf("%w (the token service did not answer: %w)", errC18L, context.DeadlineExceeded)
+			case 3:
+				failErr = c18TimeoutErr{}
 			}
 			w.mu.Lock()
 			w.log, w.hdrSeen, w.redirect, w.failID, w.failErr = nil, map[string]string{}, redirect, failing, failErr
@@ -211,3 +225,79 @@ func c18LongHistory(id string, requests int, seed int64) core.Scenario {
 		c.CountMax("max.refused_requests_on_one_instance", int64(refused))
 	}}
 }
+
+// several goroutines send requests through ONE SimpleHTTP at the same time (the transport is slow): every request gets
+// its own complete pass through the chain
+func c18Concurrent(id string, goroutines, each int, seed int64) core.Scenario {
+	return core.Scenario{ID: id, Class: "interceptor-chain.concurrent", Run: func(c *core.Ctx) {
+		c.Eval(int64(goroutines * each))
+		c.Distinct(id)
+		var mu sync.Mutex
+		logs := map[string][]string{}
+		var inTransport, maxInTransport int
+		tr := roundTripFunc(func(r *http.Request) (*http.Response, error) {
+			mu.Lock()
+			logs[r.URL.Path] = append(logs[r.URL.Path], "T")
+			inTransport++
+			if inTransport > maxInTransport {
+				maxInTransport = inTransport
+			}
+			mu.Unlock()
+			time.Sleep(time.Duration(200+seed%300) * time.Microsecond)
+			mu.Lock()
+			inTransport--
+			mu.Unlock()
+			return &http.Response{StatusCode: 200, Status: "200 OK", Proto: "HTTP/1.1", ProtoMajor: 1, ProtoMinor: 1, Header: http.Header{}, Body: io.NopCloser(strings.NewReader(`{"V":1}`)), Request: r}, nil
+		})
+		mk := func(idn int) *network.Interceptor {
+			var f network.Interceptor = func(r *http.Request) error {
+				mu.Lock()
+				logs[r.URL.Path] = append(logs[r.URL.Path], fmt.Sprintf("I%d", idn))
+				mu.Unlock()
+				return nil
+			}
+			return &f
+		}
+		sh := network.NewSimpleHTTPWithClientAndInterceptors(&http.Client{Transport: tr}, mk(1), mk(2), mk(3))
+		errs := map[string]error{}
+		var wg sync.WaitGroup
+		start := make(chan struct{})
+		for g := 0; g < goroutines; g++ {
+			wg.Add(1)
+			go func(g int) {
+				defer wg.Done()
+				<-start
+				for k := 0; k < each; k++ {
+					path := fmt.Sprintf("/g%d/r%d", g, k)
+					var err error
+					if k%2 == 0 {
+						err = sh.Get("http://example.test" + path).Err
+					} else {
+						err = sh.Post("http://example.test"+path, "text/plain", strings.NewReader("b")).Err
+					}
+					mu.Lock()
+					errs[path] = err
+					mu.Unlock()
+				}
+			}(g)
+		}
+		close(start)
+		wg.Wait()
+		mu.Lock()
+		defer mu.Unlock()
+		c.CountMax("max.requests_inside_the_transport_at_once", int64(maxInTransport))
+		for g := 0; g < goroutines; g++ {
+			for k := 0; k < each; k++ {
+				path := fmt.Sprintf("/g%d/r%d", g, k)
+				if got := strings.Join(logs[path], " "); got != "I1 I2 I3 T" || errs[path] != nil {
+					c.Violationf("concurrent:wrong-calls", map[string]any{"scenario": id, "goroutines": goroutines}, "%d goroutines sending through one SimpleHTTP at the same time: request %s saw the calls [%s] and err=%v, want [I1 I2 I3 T] and nil", goroutines, path, got, errs[path])
+					return
+				}
+			}
+		}
+	}}
+}
+
+type roundTripFunc func(*http.Request) (*http.Response, error)
+
+func (f roundTripFunc) RoundTrip(r *http.Request) (*http.Response, error) { return f(r) }
